@@ -460,8 +460,11 @@ func isContainsHelper(p *Prog, f *ssa.Function) bool {
 			}
 			eq := cmpHolds(p.Guards(r), func(l, rr *Sym, op token.Token) bool {
 				l, rr = l.Strip(), rr.Strip()
-				a := (l.Kind == "index" && symIsParam(l.Args[0], f.Params[0]) && symIsParam(rr, f.Params[1])) ||
-					(rr.Kind == "index" && symIsParam(rr.Args[0], f.Params[0]) && symIsParam(l, f.Params[1]))
+				whole := func(ix *Sym) bool {
+					return fullRange(ix, func(x *Sym) bool { return symIsParam(x, f.Params[0]) })
+				}
+				a := (l.Kind == "index" && symIsParam(l.Args[0], f.Params[0]) && whole(l.Args[1]) && symIsParam(rr, f.Params[1])) ||
+					(rr.Kind == "index" && symIsParam(rr.Args[0], f.Params[0]) && whole(rr.Args[1]) && symIsParam(l, f.Params[1]))
 				return a && op == token.EQL
 			})
 			if v {
